@@ -19,7 +19,10 @@ impl FeatureNames {
         if let Some(mut params) = feature_parser.get("names") {
             let (vis, name) = params.get_vis_name("names");
 
-            let struct_name = params.get_str_opt("struct");
+            // documented as `struct_name`; `struct` is kept for backward compatibility
+            let struct_name = params
+                .get_str_opt("struct_name")
+                .or_else(|| params.get_str_opt("struct"));
 
             params.finish(Self {
                 enabled: true,
